@@ -40,3 +40,8 @@ CLAIMED["C06"] = (
  "static analysis: constant agreement between the listing's first index and the destroy function's offset plus an in-range proof of the caller-chosen index (bound prover with closed-world caller guards), sibling rule over v2 'all keys' iterators, must-follow rule for the history-cache refresh, store-pattern rules for newest-first order",
  "Decides that 'destroy index N' addresses the element the listing shows as N and cannot index outside the list (both keystore formats), that no v2 all-keys reader aborts on a destroyed key, that every successful v1 rotation refreshes or drops the cached history list, and that both formats return the newest key first. History semantics over arbitrary operation sequences, timestamp ordering of rotated files and re-open behaviour are not decided.",
  NOTE, "DESIGN.md §2 C06")
+
+CLAIMED["C07"] = (
+ "static analysis: interprocedural backward provenance of every storage/cache/bundle sink argument (secret sources vs key-encryption results), who-may-write rule for the secret fields of the serialised ring, verify-then-parse and swallowed-error rules, path-provenance and containment-predicate rule for the directory back end, permission-constant rule",
+ "Decides that the data argument of every private-key write, cache insertion, ring secret field and export payload derives only from key-encryption results (or public/non-key data), that only addKeyData and the export copy write the ring's secret fields, that verifyKeyRing parses only the verified payload on the success edge under a path-derived context and swallows no error, that every os call of the directory back end takes a path that went through osPath and osPath has an effective containment test against the root, and that creations use the 0600/0700/0644 constants. That a copied key file fails to load and byte-level tamper detection are cryptographic and not decided; owner/purpose binding of contexts is decided as R02.4 under C02.",
+ NOTE, "DESIGN.md §2 C07")
